@@ -37,7 +37,10 @@ def gen_cases(seed, tier):
     depth = 2 if tier == "quick" else 3
     cases = []
     for i in range(n):
-        dom = gen_geo.gen_domain(rng, max_depth=int(rng.integers(1, depth + 1)))
+        if i % 11 == 5:
+            dom = gen_geo.flip_parallelogram(rng, kinds=("parallelogram", "triangle"))
+        else:
+            dom = gen_geo.gen_domain(rng, max_depth=int(rng.integers(1, depth + 1)))
         cases.append({"spec": dom["spec"], "rows": dom["rows"], "info": dom["info"], "k": dom["k"],
                       "seed": int(rng.integers(0, 2 ** 31)), "nq": 300 if tier == "quick" else 600})
     return cases
@@ -168,6 +171,34 @@ def run_case(case):
         except Exception as e:
             res["viol"].append(viol("exception", "%s.__contains__ raised %s in %s: %s" % (type(D).__name__, type(e).__name__, exc_site(e),
                                     str(e)[:300]), exc=type(e).__name__, site=exc_site(e), call="__contains__", **mech))
+    # ---- one truth value per row, independent of the rest of the batch: single rows and small sub-batches must get the
+    #      same answer as inside the full batch (interior test and boundary test)
+    if ans is not None:
+        for Dq, name in ((D, "interior"), (Db, "boundary")):
+            if Dq is None or not hasattr(Dq, "_contains"):
+                continue
+            try:
+                full = Dq._contains(P, Q).reshape(-1).bool().numpy()
+            except Exception:
+                continue
+            # prefer rows on / near the boundary (own samples sit at the end of the query set)
+            cand = np.concatenate([np.arange(max(0, N - 40), N), rng.integers(0, N, 10)])
+            picks = [np.array([int(rng.choice(cand))]) for _ in range(6)] + [rng.choice(cand, size=3, replace=False) for _ in range(3)]
+            diff = 0
+            for sel in picks:
+                Ps, Qs = _points(names_dims, X[sel], {pn: v[sel] for pn, v in envq.items()}, True)
+                try:
+                    sub = Dq._contains(Ps, Qs).reshape(-1).bool().numpy()
+                except Exception as e:
+                    res["viol"].append(viol("exception", "%s._contains on a sub-batch of %d rows raised %s in %s: %s" % (type(Dq).__name__, len(sel),
+                                            type(e).__name__, exc_site(e), str(e)[:200]), exc=type(e).__name__, site=exc_site(e), target=name, **mech0))
+                    break
+                diff += int((sub != full[sel]).sum())
+                res["counters"]["sub_batch_rows"] = res["counters"].get("sub_batch_rows", 0) + len(sel)
+            res["judged"] += 1
+            if diff:
+                res["viol"].append(viol("answer_depends_on_batch", "%s of %s: %d rows get a different membership answer when queried alone / in a "
+                                        "small batch than inside the full batch" % (name, info["desc"], diff), target=name, **mech0))
     # ---- boundary membership
     if Db is not None and hasattr(Db, "_contains") and bsamples is not None and len(bsamples[0]):
         mech = dict(mech0, target="boundary")
@@ -211,6 +242,21 @@ def run_case(case):
             if ans is None:
                 continue
             rej = okb & ~amb & ~ans
+            # the same samples queried one at a time (the answer for a row must not depend on the rest of the batch)
+            good = np.where(okb & ~amb & ans)[0]
+            if len(good):
+                alone_rej = 0
+                for j in rng.choice(good, size=min(8, len(good)), replace=False):
+                    P1, Q1 = _points(names_dims, O[j:j + 1], {pn: v[j:j + 1] for pn, v in envo.items()}, True)
+                    try:
+                        a1 = Db._contains(P1, Q1).reshape(-1).bool().numpy()
+                    except Exception:
+                        continue
+                    alone_rej += int(not a1[0])
+                    res["counters"]["own_samples_queried_alone"] = res["counters"].get("own_samples_queried_alone", 0) + 1
+                if alone_rej:
+                    res["viol"].append(viol("answer_depends_on_batch", "boundary of %s: %d of its own %s samples are accepted inside the batch "
+                                            "but rejected when queried alone" % (info["desc"], alone_rej, kind), sampler=kind, **mech))
             res["judged"] += int((okb & ~amb).sum())
             res["counters"]["own_boundary_samples_judged"] = res["counters"].get("own_boundary_samples_judged", 0) + int((okb & ~amb).sum())
             if rej.any():
